@@ -48,24 +48,6 @@ TOL = 1e-8
 # ----------------------------------------------------------------------------- known candidates (see report)
 
 
-def _is_pauli_like(gr):
-    return gr[0] in ("XPow", "YPow", "ZPow")
-
-
-def _f9(sub, r):
-    """commutes() between two Pauli-class objects of which one is not the module singleton (X**1, X**3 ... vs X)."""
-    if sub != "commutes":
-        return False
-    return _pauli_instance(r.get("a")) and _pauli_instance(r.get("b"))
-
-
-def _pauli_instance(gr):
-    """Does build_gate(gr) give an instance of cirq.Pauli?  (XPow/YPow/ZPow at exponent 1, shift 0 are built as X**1.0 ...)"""
-    if not gr or gr[0] not in ("PauliConst", "PauliPow1"):
-        return False
-    return True
-
-
 def _f13(sub, r):
     """PhasedXZGate equality is decided on a canonical form that drops a global phase."""
     if sub != "equality":
@@ -101,16 +83,20 @@ def _f20(sub, r):
     return tuple(GX.qid_shape(a)) != tuple(GX.qid_shape(b))
 
 
-def _f16(sub, r):
-    """XPowGate/ZPowGate(dimension=d>2).controlled() ignores the dimension (returns CX/CZ/CCX/CCZ powers; _extract_phase crashes)."""
-    g = r.get("g", [None, {}])
-    if g[0] not in ("XPowD", "ZPowD"):
+def _f21(sub, r):
+    """Gate._commutes_ does not forward atol: gate-level pairs that commute only within a requested atol > 1e-8
+    (one of the gates has a tiny parameter) get a definite False."""
+    if sub != "commutes" or r.get("level") != "gate" or not r.get("atol", 0) > 1e-8:
         return False
-    if sub == "controlled":
-        return r.get("via") in ("gate", "op")
-    if sub == "unary":
-        return r.get("wrap") == "controlled"
-    return False
+    return any(isinstance(v, float) and 0 < abs(v) <= 1e-3 for g in (r.get("a"), r.get("b")) for v in _flat(g[1]))
+
+
+def _f22(sub, r):
+    """cirq_ionq.MSGate equality ignores theta."""
+    if sub != "equality":
+        return False
+    a, b = r.get("a", [None]), r.get("b", [None])
+    return a[0] == "IonqMS" and b[0] == "IonqMS" and a[1].get("theta") != b[1].get("theta")
 
 
 def _f17(sub, r):
@@ -123,8 +109,10 @@ def _f17(sub, r):
     return abs(x - round(x)) < 1e-8
 
 
-KNOWN_FEATURES = {"F9_pauli_commutes_identity": _f9, "F13_phasedxz_eq_global_phase": _f13, "F15_clifford_commutes_up_to_phase": _f15,
-                  "F16_qudit_xz_controlled_drops_dimension": _f16, "F17_phasedxz_stabilizer_false_negative": _f17, "F19_controlled_dense_pauli_identity": _f19, "F20_matrixgate_approx_eq_shapes": _f20}
+# F9 (Pauli._commutes_ identity test) and F16/F16b (qudit X/Z controlled) were repaired in /repo: their predicates are gone and
+# their minimal inputs are regression examples of the sub-checks.
+KNOWN_FEATURES = {"F13_phasedxz_eq_global_phase": _f13, "F15_clifford_commutes_up_to_phase": _f15,
+                  "F17_phasedxz_stabilizer_false_negative": _f17, "F19_controlled_dense_pauli_identity": _f19, "F20_matrixgate_approx_eq_shapes": _f20, "F21_gate_commutes_drops_atol": _f21, "F22_ionq_ms_equality_ignores_theta": _f22}
 
 
 def _dev_exclude(sub, recipe):
@@ -339,6 +327,14 @@ def _ctrl_spec(draw, max_controls=2):
 
 @st.composite
 def _ctrl_case(draw):
+    if draw(st.integers(0, 7)) == 0:
+        # the specialised return types of controlled(): shift 0, all-ones controls on qubits
+        g = draw(GX.gate_recipes(lambda f: f.name in ("XPow", "YPow", "ZPow", "CZPow", "CXPow", "GlobalPhase", "XPowD", "ZPowD"), max_arity=2, even=True))
+        if "s" in g[1]:
+            g = [g[0], dict(g[1], s=0.0)]
+        n = draw(st.integers(1, 2))
+        return {"g": g, "specs": [{"kind": draw(st.sampled_from(["count", "pos"])), "dims": [2] * n, "shape_given": draw(st.booleans()), "vals": [1] * n}],
+                "via": draw(st.sampled_from(["gate", "op"]))}
     g = draw(GX.gate_recipes(lambda f: f.unitary and f.name not in ("Matrix3",), max_arity=2, even=True))
     fam = GX.all_families()[g[0]]
     if "eigen" in fam.tags and draw(st.booleans()):
@@ -392,7 +388,7 @@ def controlled_matrix(u, target_dim, specs_outer_first):
 
 
 def _cv_arg(spec):
-    if spec["kind"] == "count":
+    if spec["kind"] == "count" or spec["vals"] is None:
         return None
     if spec["kind"] == "pos":
         return [v if isinstance(v, int) else tuple(v) for v in spec["vals"]]
@@ -439,18 +435,24 @@ def oracle_controlled(r):
     if via in ("gate", "ctor"):
         got_shape = tuple(cirq.qid_shape(cur))
         if got_shape != full_shape:
-            raise Violation(f"controlled {gr[0]} via {via}: qid_shape {got_shape} != controls+target {full_shape}")
+            raise Violation(f"controlled {gr[0]} via {via}: qid_shape is not controls+target\n  got {got_shape} expected {full_shape} gate={gr if len(str(gr)) < 300 else gr[0]} specs={specs}")
         m = cirq.unitary(cur)
         result_type = type(cur).__name__
     else:
         got_shape = tuple(q.dimension for q in cur_op.qubits)
         if got_shape != full_shape:
-            raise Violation(f"controlled {gr[0]} via {via}: qubit dimensions {got_shape} != controls+target {full_shape}")
+            raise Violation(f"controlled {gr[0]} via {via}: qubit dimensions are not controls+target\n  got {got_shape} expected {full_shape} gate={gr if len(str(gr)) < 300 else gr[0]} specs={specs}")
         if tuple(cur_op.qubits[-len(tq):]) != tuple(tq) and len(tq):
             raise Violation(f"controlled {gr[0]} via {via}: target qubits are not the last qubits of the operation")
         m = cirq.unitary(cur_op)
         result_type = type(cur_op).__name__ + ":" + type(cur_op.gate).__name__
-    _cmp(f"controlled {gr[0]} via {via} ({[s['kind'] for s in specs]}) vs block matrix", m, want, tol=TOL)
+    m = np.asarray(m)
+    detail = f"\n  gate={gr if len(str(gr)) < 300 else gr[0]} specs={specs} result={result_type}"
+    if m.shape != want.shape:
+        raise Violation(f"controlled {gr[0]} via {via}: unitary has the wrong size{detail} shape={m.shape} expected={want.shape}")
+    d = L.max_abs_diff(m, want)
+    if not d <= TOL:
+        raise Violation(f"controlled {gr[0]} via {via}: unitary differs from the block matrix{detail} diff={d:.3g}")
     nondefault = any(expand_spec(s) != {tuple([1] * len(s["dims"]))} for s in specs)
     return {"nontrivial": bool(nondefault), "family": gr[0], "via": via, "nested": len(specs) > 1,
             "qudit_control": any(d != 2 for s in specs for d in s["dims"]), "qudit_target": any(d != 2 for d in tshape),
@@ -523,8 +525,13 @@ def _commute_case(draw):
         if isinstance(b[1], dict) and "e" in b[1] and draw(st.booleans()):
             b[1]["e"] = draw(_generic_exp())
     elif mode == "clifford":
-        a = ["SingleQubitClifford", {"i": draw(st.integers(0, 23))}]
-        b = draw(st.one_of(st.just(None), _pauli_recipes())) or ["SingleQubitClifford", {"i": draw(st.integers(0, 23))}]
+        if draw(st.integers(0, 3)) == 0:
+            tq = st.sampled_from(["CNOT", "CZ", "SWAP", "CXSWAP", "CZSWAP"]).map(lambda n: ["TwoQubitClifford", {"name": n}])
+            a = draw(tq)
+            b = draw(st.one_of(tq, GX.gate_recipes(lambda f: f.name in ("CZPow", "CXPow", "SwapPow", "ISwapPow", "ZZPow", "XXPow"), max_arity=2)))
+        else:
+            a = ["SingleQubitClifford", {"i": draw(st.integers(0, 23))}]
+            b = draw(st.one_of(st.just(None), _pauli_recipes())) or ["SingleQubitClifford", {"i": draw(st.integers(0, 23))}]
     else:
         a, b = draw(base), draw(base)
     na, nb = len(shape_of(a)), len(shape_of(b))
@@ -728,7 +735,7 @@ def oracle_equality(r):
 def _is_signed_pauli_string(m, n):
     """Is the 2^n x 2^n matrix +-(tensor product of Paulis)?  (Hermitian Pauli images only: +-1 phases)"""
     k = int(np.argmax(np.abs(m[:, 0])))
-    if abs(abs(m[k, 0]) - 1) > 1e-6:
+    if abs(abs(m[k, 0]) - 1) > 5e-5:
         return False
     best = None
     for ps in itertools.product("IXYZ", repeat=n):
@@ -736,7 +743,8 @@ def _is_signed_pauli_string(m, n):
         if abs(pm[k, 0]) < 0.5:
             continue
         s = m[k, 0] / pm[k, 0]
-        if L.max_abs_diff(m, s * pm) < 1e-6 and min(abs(s - 1), abs(s + 1)) < 1e-6:
+        # 5e-5: Cirq's own tests use np.allclose (rtol 1e-5): "Clifford within 1e-5" counts as Clifford
+        if L.max_abs_diff(m, s * pm) < 5e-5 and min(abs(s - 1), abs(s + 1)) < 5e-5:
             best = ps
             break
     return best is not None
@@ -794,6 +802,7 @@ def oracle_unary(r):
     n = len(shape)
     qubits_only = all(d == 2 for d in shape)
     lab = {"family": gr[0], "wrap": r["wrap"], "qubits_only": qubits_only}
+    detail = f"\n  gate={gr if len(str(gr)) < 300 else gr[0]} wrap={r['wrap']} t={r['t']}"
     # has_stabilizer_effect
     hs = cirq.has_stabilizer_effect(x)
     if not isinstance(hs, (bool, np.bool_)):
@@ -803,17 +812,17 @@ def oracle_unary(r):
         really = maps_paulis_to_paulis(u, n)
         lab["stabilizer_really"] = really
         if hs and not really:
-            raise Violation(f"has_stabilizer_effect({gr[0]} {gr[1] if len(str(gr[1])) < 80 else ''}, wrap={r['wrap']}) is True but U P U^dagger is not a Pauli string for some generator")
+            raise Violation(f"has_stabilizer_effect({gr[0]}, wrap={r['wrap']}) is True but U P U^dagger is not a Pauli string for some generator{detail}")
         if n == 1 and not hs and really and _strictly_clifford(u):
             # "For 1-qubit gates always returns correct result"
-            raise Violation(f"has_stabilizer_effect({gr[0]} {gr[1] if len(str(gr[1])) < 80 else ''}, wrap={r['wrap']}) is False for a 1-qubit Clifford matrix")
+            raise Violation(f"has_stabilizer_effect({gr[0]}, wrap={r['wrap']}) is False for a 1-qubit Clifford matrix{detail}")
     # trace_distance_bound
     tb = cirq.trace_distance_bound(x)
     exact = trace_distance_exact(u)
     if not (0 <= tb <= 1.0 + 1e-12):
         raise Violation(f"trace_distance_bound({gr[0]}) = {tb} outside [0, 1]")
     if tb < exact - 1e-7:
-        raise Violation(f"trace_distance_bound({gr[0]} {gr[1] if len(str(gr[1])) < 80 else ''}, wrap={r['wrap']}) = {tb:.6g} underestimates the maximal trace distance {exact:.6g}")
+        raise Violation(f"trace_distance_bound({gr[0]}, wrap={r['wrap']}) underestimates the maximal trace distance: {tb:.6g} < {exact:.6g}{detail}")
     lab["bound_tight"] = tb <= exact + 1e-6
     lab["bound_trivial"] = tb >= 1 - 1e-12
     # pauli_expansion
@@ -826,7 +835,7 @@ def oracle_unary(r):
                 if len(k) != n or any(ch not in "IXYZ" for ch in k):
                     raise Violation(f"pauli_expansion({gr[0]}) has key {k!r}, expected {n} letters of IXYZ")
                 m += complex(c) * L.pauli_string_matrix(k)
-            _cmp(f"pauli_expansion({gr[0]} {gr[1] if len(str(gr[1])) < 80 else ''}, wrap={r['wrap']}) summed vs unitary", m, u, tol=1e-8 * 4 ** n + 4 ** n * 1e-9)
+            _cmp(f"pauli_expansion({gr[0]}, wrap={r['wrap']}) summed vs unitary", m, u, tol=1e-8 * 4 ** n + 4 ** n * 1e-9)
     lab["nontrivial"] = bool(_off_lattice_params(gr) or (hs and not np.allclose(u, np.eye(len(u)))))
     return lab
 
@@ -849,13 +858,18 @@ SUBCHECKS = [
     SubCheck("pow", _pow_case(), oracle_pow, quick=8000, thorough=250000, shards_quick=6, shards_thorough=16,
              essential={"pow_defined": 0.4, "eigen": 0.3}),
     SubCheck("controlled", _ctrl_case(), oracle_controlled, quick=6000, thorough=150000, shards_quick=4, shards_thorough=16,
-             essential={"nontrivial": 0.4, "qudit_control": 0.15, "nested": 0.15, "specialised": 0.03}),
+             essential={"nontrivial": 0.35, "qudit_control": 0.15, "nested": 0.15, "specialised": 0.04},
+             examples=[{"g": ["XPowD", {"d": 3, "e": 0.5, "s": 0.0}], "specs": [{"dims": [2], "kind": "count", "shape_given": False, "vals": None}], "via": "gate"},  # F16 (fixed)
+                       {"g": ["ZPowD", {"d": 3, "e": 0.5, "s": 0.0}], "specs": [{"dims": [2, 2], "kind": "count", "shape_given": False, "vals": None}], "via": "op"}]),
     SubCheck("phase_by", _phase_case(), oracle_phase_by, quick=4000, thorough=120000, shards_quick=3, shards_thorough=8,
              essential={"supported": 0.4, "changes_matrix": 0.2}),
     SubCheck("commutes", _commute_case(), oracle_commutes, quick=8000, thorough=250000, shards_quick=5, shards_thorough=16,
-             essential={"overlap=partial": 0.1, "answer=True": 0.15, "answer=False": 0.15}),
+             essential={"overlap=partial": 0.1, "answer=True": 0.15, "answer=False": 0.15},
+             examples=[{"a": ["PauliPow1", {"k": 1, "p": "X"}], "b": ["PauliConst", {"p": "X"}], "qa": [0], "qb": [0], "n": 1, "level": "gate", "atol": 1e-8},  # F9 (fixed)
+                       {"a": ["PauliPow1", {"k": 1.0, "p": "Y"}], "b": ["PauliPow1", {"k": 3, "p": "Y"}], "qa": [0], "qb": [0], "n": 1, "level": "op", "atol": 1e-8}]),
     SubCheck("equality", _eq_case(), oracle_equality, quick=8000, thorough=250000, shards_quick=5, shards_thorough=16,
              essential={"eq": 0.1, "approx_eq": 0.15, "eq_phase": 0.15}),
     SubCheck("unary", _unary_case(), oracle_unary, quick=6000, thorough=200000, shards_quick=4, shards_thorough=16,
-             essential={"stabilizer_claim": 0.15}),
+             essential={"stabilizer_claim": 0.15},
+             examples=[{"g": ["XPowD", {"d": 3, "e": 0.0, "s": 0.5}], "t": 1.5, "wrap": "controlled"}]),  # F16b (fixed)
 ]
